@@ -51,7 +51,7 @@ def run_driver(run, tier, seed, tmpdir):
         m = __import__("xv." + mod, fromlist=[fn])
         getattr(m, fn)(run, tier, out, env)
     else:
-        exe = build.ensure_driver(run["driver"], flavor, run.get("extra_flags"), run.get("extra_srcs"))
+        exe = build.ensure_driver(run["driver"], flavor, run.get("extra_flags"), run.get("extra_srcs"), run.get("plain_c"))
         cmd = [exe] + [str(a) for a in run["args"]] + ["--out", out]
         if "workers" not in " ".join(cmd):
             cmd += ["--workers", str(run.get("workers", int(os.environ.get("XV_WORKERS", "10"))))]
@@ -66,7 +66,7 @@ def run_driver(run, tier, seed, tmpdir):
 def write_replay(prop, run, viol):
     os.makedirs(os.path.join(REPLAYS, prop), exist_ok=True)
     body = {"property": prop, "driver": run.get("driver"), "flavor": run.get("flavor", "asan"), "args": [str(a) for a in run.get("args", [])],
-            "python": run.get("python"), "space": run["name"], "case": viol.get("case"), "violation": viol}
+            "python": run.get("python"), "space": run["name"], "extra_flags": run.get("extra_flags"), "extra_srcs": run.get("extra_srcs"), "plain_c": run.get("plain_c"), "case": viol.get("case"), "violation": viol}
     h = hashlib.sha1(json.dumps(body, sort_keys=True).encode()).hexdigest()[:16]
     path = os.path.join(REPLAYS, prop, h + ".json")
     json.dump(body, open(path, "w"), indent=1)
@@ -170,7 +170,7 @@ def replay(path):
         mod, fn = body["python"].rsplit(".", 1)
         m = __import__("xv." + mod, fromlist=[fn])
         return getattr(m, "replay")(body)
-    exe = build.ensure_driver(body["driver"], body.get("flavor", "asan"))
+    exe = build.ensure_driver(body["driver"], body.get("flavor", "asan"), body.get("extra_flags"), body.get("extra_srcs"), body.get("plain_c"))
     env = dict(os.environ)
     env.update(build.SAN_ENV)
     cmd = [exe] + body["args"] + ["--only", str(body["case"])]
@@ -188,11 +188,11 @@ def setup():
             for r in spec["runs"][tier]:
                 if "driver" in r:
                     flavors.add(r.get("flavor", "asan"))
-                    drivers.add((r["driver"], r.get("flavor", "asan"), tuple(r.get("extra_flags") or ()), tuple(r.get("extra_srcs") or ())))
+                    drivers.add((r["driver"], r.get("flavor", "asan"), tuple(r.get("extra_flags") or ()), tuple(r.get("extra_srcs") or ()), tuple(r.get("plain_c") or ())))
     for fl in sorted(flavors):
         build.ensure_lib(fl)
-    for d, fl, ef, es in sorted(drivers):
-        build.ensure_driver(d, fl, list(ef), list(es))
+    for d, fl, ef, es, pc in sorted(drivers):
+        build.ensure_driver(d, fl, list(ef), list(es), list(pc))
         print("[xv] driver %s (%s) ready" % (d, fl), flush=True)
     return 0
 
